@@ -644,7 +644,7 @@ class ScaledIdentityMatrix(SymmetricMatrix, DifferentiableMatrix, ImplicitArrayM
 
     @property
     def diagonal(self) -> NDArray:
-        return self._scalar * np.ones(self.shape[0])
+        return self._scalar * np.ones(() if self.shape[0] is None else self.shape[0])
 
     def _construct_array(self) -> NDArray:
         if self.shape[0] is None:
